@@ -334,3 +334,30 @@ Qed.
 Print Assumptions C09_interp_both_many.
 Example C09_interp_both_many_ex : pose_interp (@pair nat nat) [1; 2] [0; 1] = Err AssertionError.
 Proof. reflexivity. Qed.
+
+(* ================================================================= histories
+   Whatever sequence of list mutations an object went through, the helpers see only its current values: the broadcasting
+   statements hold of the mutated operands exactly as of fresh ones. *)
+Theorem C09_history_unary : forall A C (f : A -> C) (h : list (mutation A)) l,
+  unop f (run_history h l) = map f (run_history h l) /\
+  to_list (acc_branch1 f (run_history h l)) = Some (map f (run_history h l)) /\
+  to_list (acc_map_unwrap f (run_history h l)) = Some (map f (run_history h l)).
+Proof. intros. split; [reflexivity|]. destruct (C09_accessors_map A C f (run_history h l)) as [H1 [H2 _]]. auto. Qed.
+Print Assumptions C09_history_unary.
+
+Theorem C09_history_binop : forall A B C (op : A -> B -> C) list1 (hl : list (mutation A)) (hr : list (mutation B)) l r v d i,
+  binop op list1 (run_history hl l) (Seq (run_history hr r)) = Ok v -> to_list v = Some d ->
+  i < blen (length (run_history hl l)) (length (run_history hr r)) ->
+  length d = blen (length (run_history hl l)) (length (run_history hr r)) /\
+  nth_error d i = app2 op (pick i (run_history hl l)) (pick i (run_history hr r)).
+Proof.
+  intros A B C op list1 hl hr l r v d i H Hd Hi. split.
+  - destruct (C09_binop_length _ _ _ _ _ _ _ _ H) as [d' [Hd' Hlen]]. rewrite Hd in Hd'. injection Hd' as <-. exact Hlen.
+  - exact (C09_binop_nth _ _ _ _ _ _ _ _ _ _ H Hd Hi).
+Qed.
+Print Assumptions C09_history_binop.
+Example C09_history_binop_ex :
+  run_history [MAppend 3; MReverse; MPop 0; MSet 0 9; MInsert 1 5] [1; 2] = [9; 5; 1] /\
+  binop (@pair nat nat) true (run_history [MAppend 3; MReverse; MPop 0; MSet 0 9; MInsert 1 5] [1; 2]) (Seq (run_history [MPopLast] [7; 8]))
+    = Ok (PList [(9, 7); (5, 7); (1, 7)]).
+Proof. split; reflexivity. Qed.
